@@ -60,5 +60,5 @@ package kdcproxy
 //@   ensures[C20] malformed: #status == 400 ==> #kdcForwards == 0
 //@   ensures[C20] answered: #status != 0
 //@   site (*KerberosProxy).forward requires[C20] validated: #status == 0 && r.Method == "POST" && 0 <= r.ContentLength && r.ContentLength <= 131072 && #readFullOK && #asn1OK && #asn1RestLen == 0 && arg1 == msg.Realm && arg2 == msg.Message
-//@   site net/http.ResponseWriter.Write requires[C20] reply: #kdcForwards == 1 && arg1 == reply
+//@   site http.ResponseWriter.Write requires[C20] reply: #kdcForwards == 1 && arg1 == reply
 //@   nopanic[C10]
